@@ -34,6 +34,7 @@ def plan(tier, seed):
             dict(space="k3", lexmap="M3", alpha="ab", nmax=4),
             dict(space="k4only", win=(seed, 40), lexmap="M0", alpha="ab ", nmax=4),
             dict(space="lists"),
+            dict(space="layout-rule", nmax=5),
         ]
     return [
         dict(space="k3", lexmap="M0", alpha="ab \n", nmax=5),
@@ -45,6 +46,7 @@ def plan(tier, seed):
         dict(space="k4only", lexmap="M0", alpha="ab \n", nmax=4),
         dict(space="k4only", lexmap="M3", alpha="ab", nmax=4),
         dict(space="lists"),
+        dict(space="layout-rule", nmax=6),
     ]
 
 
@@ -53,6 +55,9 @@ def units(tier, seed):
     for row in plan(tier, seed):
         if row["space"] == "lists":
             out.append(dict(row))
+            continue
+        if row["space"] == "layout-rule":
+            out += [dict(row, part=i, parts=16) for i in range(16)]
             continue
         n = len(spaces.grammars(**SPACES[row["space"]]))
         win = row.get("win")
@@ -112,6 +117,8 @@ def check_error(judge, st, cfg, gk, s, case, exc, want_pos, expected, glr):
 def run_unit(u):
     if u["space"] == "lists":
         return lists_unit()
+    if u["space"] == "layout-rule":
+        return layout_rule_unit(u)
     sp = SPACES[u["space"]]
     nts, ts = sp["nts"], sp["ts"]
     gs = spaces.grammars(**sp)
@@ -242,6 +249,79 @@ def run_unit(u):
     r.update(st)
     r.update(states=len(mon.states), transitions=mon.transitions,
              traces=mon.traces, samples=samples)
+    return r
+
+
+# a LAYOUT rule whose items are parsed token by token (block comments): the
+# first offending token can lie inside the layout.  Reference: the same
+# language with the layout written out in the grammar (no skipping at all).
+LAYOUT_REAL = ('S: S p n | n;\n'
+               'LAYOUT: LI | LAYOUT LI | EMPTY;\nLI: WS | BC;\n'
+               'BC: co NC cc | co cc;\n'
+               'terminals\nn: "n";\np: "+";\nWS: /[_\\n]+/;\nco: "/*";\n'
+               'cc: "*/";\nNC: /([^*]|\\*(?!\\/))+/;\n')
+LAYOUT_FLAT = [("Z", ("L", "S", "L")),
+               ("S", ("S", "L", "p", "L", "n")), ("S", ("n",)),
+               ("L", ("L", "LI")), ("L", ()),
+               ("LI", ("WS",)), ("LI", ("BC",)),
+               ("BC", ("co", "NC", "cc")), ("BC", ("co", "cc"))]
+LAYOUT_LEX = {"n": ("s", "n"), "p": ("s", "+"), "WS": ("r", "[_\\n]+"),
+              "co": ("s", "/*"), "cc": ("s", "*/"),
+              "NC": ("r", "([^*]|\\*(?!\\/))+")}
+
+
+def layout_rule_unit(u):
+    mon = Monitor()
+    judge = Judge(PROP, KNOWN)
+    st = collections.Counter()
+    ce = CharEarley(LAYOUT_FLAT, "Z", Matchers(LAYOUT_LEX), lambda s, p: p)
+    inputs = spaces.strings("n+_/*\n", u["nmax"])
+    inputs = inputs[u["part"]::u["parts"]]
+    parsers = []
+    for tk in ("LALR", "SLR"):
+        for kind in ("lr", "glr"):
+            parsers.append((f"{kind}/{tk}", kind, build(
+                kind, grammar_from_string(LAYOUT_REAL), mon,
+                tag=("layout-rule", kind, tk), tables=tk)))
+    for s in inputs:
+        an = ce.analyse(s)
+        first = True
+        for cfgname, kind, p in parsers:
+            cfg = f"layout-rule/{cfgname}"
+            case = {"grammar": LAYOUT_REAL, "parser": kind,
+                    "options": {"tables": cfgname.split("/")[1]}, "input": s}
+            o = parse(p, s, mon)
+            st["evaluations"] += 1
+            if an["sentence"]:
+                if o.kind != "ok":
+                    judge.deviation(None, cfg, "layout-rule", s,
+                                    "sentence (with layout) rejected",
+                                    {"o": o.brief()}, case)
+                continue
+            if first and an["pos"] > 0:
+                st["nontrivial"] += 1
+            first = False
+            if o.kind == "syntax":
+                check_error(judge, st, cfg, "layout-rule", s, case, o.exc,
+                            an["pos"], an["expected"], False)
+            elif o.kind == "ok":
+                judge.deviation(None, cfg, "layout-rule", s,
+                                "non-sentence accepted", {}, case)
+            elif o.kind == "budget":
+                judge.deviation(None, cfg, "layout-rule", s,
+                                "parse does not terminate (step budget)",
+                                {"kind": kind}, case)
+            else:
+                judge.deviation("WRONG-EXCEPTION", cfg, "layout-rule", s,
+                                f"rejection raised {o.brief()} instead of "
+                                "SyntaxError",
+                                {"type": type(o.exc).__name__}, case)
+    r = judge.result()
+    r.update(st)
+    r.update(states=len(mon.states), transitions=mon.transitions,
+             traces=mon.traces,
+             samples=[{"grammar": LAYOUT_REAL, "family": "LAYOUT rule with "
+                       "block comments", "inputs": len(inputs)}])
     return r
 
 
